@@ -48,7 +48,7 @@ ASSUMPTIONS = [
     "session cases: the 16 mask forms were probed to be accepted and bitwise equivalent on the unchanged tree; the raising calls were probed to raise there too (a call that does not raise is only counted); a caught exception must leave corrected_stack and every later result unchanged",
     "gc.freeze() is called once per worker after import so that the two gc.collect() calls inside reconstruct() cost ~1 ms instead of ~130 ms; it does not change what is computed",
 ]
-BUDGET = {"quick": {"soft_s": 100}, "thorough": {"soft_s": 520}}
+BUDGET = {"quick": {"soft_s": 300}, "thorough": {"soft_s": 1200}}
 MIN_EVALUATIONS = {"quick": 1500, "thorough": 10000}
 REQUIRED_COUNTERS = ["eval:aberration_spelling_dependence", "eval:mask_form_dependence", "eval:mask_buffer_reuse", "eval:after_error_dependence", "eval:batch_invariance", "eval:linearity", "eval:recombination", "eval:closed_form_zero_aberration", "eval:closed_form_defocus_astigmatism"]
 EXHAUSTIVE = {"quick": False, "thorough": False}
